@@ -20,8 +20,10 @@ type MarshalToCase struct {
 	SpareCap int         `json:"spare_cap"` // the destination is the first DstLen bytes of an arena this much larger (a re-sliced pooled buffer)
 	// InPlace: additionally the forwarder pattern - Unmarshal(buf), change fixed header fields, MarshalTo(buf): the
 	// destination previously contained the packet's own wire image, which the packet's slices still point into
-	InPlace bool   `json:"in_place,omitempty"`
-	Tweak   uint32 `json:"tweak,omitempty"`
+	// XCleared: the exported Extension flag is cleared while the entries stay (a forwarder suppressing the block)
+	XCleared bool   `json:"x_cleared,omitempty"`
+	InPlace  bool   `json:"in_place,omitempty"`
+	Tweak    uint32 `json:"tweak,omitempty"`
 }
 
 var subC04 = register("C04", "marshalto", checkC04)
@@ -59,10 +61,17 @@ func checkC04(r *run, c *MarshalToCase) (CaseInfo, error) {
 	if err != nil {
 		return ci, failf("model not constructible: %v", err)
 	}
+	if c.XCleared && p.Extension && len(p.Extensions) > 0 {
+		p.Extension = false
+		ci.class("entries-kept-with-x-cleared")
+	}
 	size := p.MarshalSize()
 	want, err := p.Marshal()
 	if err != nil {
 		return ci, failf("Marshal failed on a well-formed packet: %v", err)
+	}
+	if len(want) != size {
+		return ci, failf("Marshal() returns %d bytes, MarshalSize() is %d", len(want), size)
 	}
 	hsize := p.Header.MarshalSize()
 	hwant, err := p.Header.Marshal()
@@ -311,6 +320,7 @@ func genMarshalToCase(t *rapid.T) *MarshalToCase {
 	if genBool(t, "sparecap") {
 		c.SpareCap = rapid.SampledFrom([]int{1, 2, 3, 4, 8, 16, 64, 300, 2000}).Draw(t, "sparecapval")
 	}
+	c.XCleared = rapid.IntRange(0, 9).Draw(t, "xcleared") == 0
 	if rapid.IntRange(0, 2).Draw(t, "inplace") == 0 {
 		c.InPlace, c.Tweak = true, genU32(t, "tweak")
 	}
@@ -322,7 +332,7 @@ func genMarshalToCase(t *rapid.T) *MarshalToCase {
 	return c
 }
 
-const ruleC04 = "C01's well-formed packets x destination lengths {0,1,11,12,hdr-1,hdr,hdr+1,size-1,size,size+1,size+7} or uniform in [0,size+16] x prior contents {zero,0xFF,0xEE,random} x spare capacity behind the destination (0 or 1-2000 bytes: a re-sliced pooled buffer); oracle: short destination -> io.ErrShortBuffer with n=0, otherwise n=MarshalSize, bytes identical to Marshal(), bytes beyond n untouched; same for Header.MarshalTo; one case in three also runs the forwarder pattern Unmarshal(buf) / change sequence number, timestamp, SSRC, marker, PT / MarshalTo(buf) over the packet's own wire image (only when that image is a Marshal fixed point, so the layout is unchanged; first with a destination a few bytes short: short-buffer error): result = Marshal() of the changed packet, packet intact; then, when the image has no RTP padding and there is room behind it, 1-7 padding octets are added and the packet is written in place once more; and with two or more RFC 8285 elements one of them is deleted and the shorter packet written over the image. Non-trivial = dirty destination with extension padding or >=2 RTP padding octets, or destination length in {size-1,size}; distinct = FNV-64 of the JSON case"
+const ruleC04 = "C01's well-formed packets (one in ten with the Extension flag cleared while the entries stay) x destination lengths {0,1,11,12,hdr-1,hdr,hdr+1,size-1,size,size+1,size+7} or uniform in [0,size+16] x prior contents {zero,0xFF,0xEE,random} x spare capacity behind the destination (0 or 1-2000 bytes: a re-sliced pooled buffer); oracle: short destination -> io.ErrShortBuffer with n=0, otherwise n=MarshalSize, bytes identical to Marshal(), bytes beyond n untouched; same for Header.MarshalTo; one case in three also runs the forwarder pattern Unmarshal(buf) / change sequence number, timestamp, SSRC, marker, PT / MarshalTo(buf) over the packet's own wire image (only when that image is a Marshal fixed point, so the layout is unchanged; first with a destination a few bytes short: short-buffer error): result = Marshal() of the changed packet, packet intact; then, when the image has no RTP padding and there is room behind it, 1-7 padding octets are added and the packet is written in place once more; and with two or more RFC 8285 elements one of them is deleted and the shorter packet written over the image. Non-trivial = dirty destination with extension padding or >=2 RTP padding octets, or destination length in {size-1,size}; distinct = FNV-64 of the JSON case"
 
 func TestC04(t *testing.T) {
 	r := begin(t, "C04", "exploration", ruleC04)
